@@ -173,6 +173,8 @@ def run(ck, facts, tier):
                                 ctys = [("f64" if k == "F64" else (D1 if k == "Dual" else D2)) for k in (kl, kr)]
                                 fn_ = next(rr["fn"] for rr in facts.all_fns() if rr.get("trait_item") == "std::ops::Rem::rem" and rr.get("sig") == ctys)
                                 inner = cel.Ev(facts).apply_fn(fn_, [pa, pb], 0)
+                                if not isinstance(inner, Rec):
+                                    raise Unsupported("the contained remainder branches: %s" % cel.vfmt(inner)[:120])
                                 want = dict(inner.fields)
                         except (Unsupported, StopIteration) as e_:
                             ck.fail(r3, key, "contained remainder could not be evaluated (%s)" % e_, where)
@@ -186,7 +188,7 @@ def run(ck, facts, tier):
                             flds = ["real", "dual"] + (["dual2"] if top == "Dual2" else [])
                             ok = isinstance(x, Rec) and all(x.fields.get(f) == want[f] for f in flds)
                     ck.check(r3, key, ok, "Number %s for (%s,%s) is not %s(lhs %s rhs) by the contained rule: %s" % (op, kl, kr, top, op, cel.vfmt(v)[:300]), where,
-                             sample="%s(%s)" % (top, want["real"].fmt()))
+                             sample="%s(%s)" % (top, cel.vfmt(want["real"])[:120]))
         elif ti in c01.UNARY_TRAIT or ti == "num_traits::Signed::abs":
             if tys[0] != NUM:
                 continue
